@@ -870,7 +870,8 @@ struct Value {
             return value_->operator==(val);
         }
 
-        return (type > val.Type());
+        // Values of different kinds are never equal (they are ordered by kind).
+        return false;
     }
 
     void Merge(Value &&val) {
